@@ -30,6 +30,7 @@ func vInt(name string) int
 func vBool(name string) bool
 func vBytes(name string, maxLen int) []byte
 func vBytesN(name string, n int) []byte
+func vBytesEach(name string, maxLen int) []byte
 func vString(name string, maxLen int) string
 func vChoice(name string, n int) int
 func vConcrete(x int) int
@@ -47,6 +48,7 @@ func vObserveBool(name string, x bool)
 func vObserveBytes(name string, b []byte)
 func vObserveString(name string, s string)
 func vLog(args ...interface{})
+func vTagMap(x interface{}) map[string]interface{}
 `
 
 const apiNative = `package PKG
@@ -55,7 +57,9 @@ import (
 	"bytes"
 	"encoding/hex"
 	"fmt"
+	"reflect"
 	"strconv"
+	"strings"
 )
 
 var vModel = map[string]string{}
@@ -110,7 +114,8 @@ func vBytesN(name string, n int) []byte {
 	}
 	return b[:n:n]
 }
-func vString(name string, maxLen int) string { return string(vBytes(name, maxLen)) }
+func vBytesEach(name string, maxLen int) []byte { return vBytes(name, maxLen) }
+func vString(name string, maxLen int) string  { return string(vBytes(name, maxLen)) }
 func vChoice(name string, n int) int         { return int(vNum(name)) }
 func vConcrete(x int) int                    { return x }
 func vAssume(c bool) {
@@ -156,6 +161,22 @@ func vObserveBytes(name string, b []byte) {
 }
 func vObserveString(name string, s string) { vObserveBytes(name, []byte(s)) }
 func vLog(args ...interface{})              {}
+func vTagMap(x interface{}) map[string]interface{} {
+	m := map[string]interface{}{}
+	v := reflect.ValueOf(x)
+	t := v.Type()
+	for i := 0; i < t.NumField(); i++ {
+		key := strings.Split(t.Field(i).Tag.Get("yaml"), ",")[0]
+		if key == "" {
+			key = strings.ToLower(t.Field(i).Name)
+		}
+		if key == "-" {
+			continue
+		}
+		m[key] = v.Field(i).Interface()
+	}
+	return m
+}
 `
 
 type Loaded struct {
